@@ -495,6 +495,29 @@ def deep_shard(args):
     return agg
 
 
+def fuzz_judge(agg, d):
+    """Classification of one re-run fuzz artifact for C01: any panic / sanitizer report / abort is a violation; a
+    failure of the C16 span monitor belongs to C16's own campaign and is only counted here."""
+    import fuzzleg
+    data = d["data"]
+    desc = {"family": "fuzz", "bytes": data[:400].decode("latin-1")}
+    replay = {"script": run_lines(data, path="<in>", stack=120), "fuzz_input_hex": data.hex()}
+    if d["cls"] == "panic":
+        agg.violation(fuzzleg.panic_signature(d), {"input": desc, "panic": d["msg"], "loc": "%s:%s" % (d["loc"], d["line"])}, replay)
+    elif d["cls"] == "sanitizer":
+        agg.violation({"kind": "sanitizer_report", "what": d["what"]}, {"input": desc, "stderr": d["stderr"][-800:]}, replay)
+    elif d["cls"] == "native_stack_overflow":
+        agg.violation({"kind": "native_stack_overflow", "where": "fuzz", "family": "fuzz"}, {"input": desc, "stderr": d["stderr"][-400:]}, replay)
+    elif d["cls"] == "crash":
+        agg.violation({"kind": "crash", "where": "fuzz", "exit": d.get("exit")}, {"input": desc, "stderr": d["stderr"][-800:]}, replay)
+    elif d["cls"] == "monitor":
+        agg.count("fuzz_monitor_of_other_property:" + d["prop"])
+    elif d["cls"] in ("timeout", "resource"):
+        agg.inconc("fuzz_" + d["cls"])
+    else:
+        agg.count("fuzz_artifact_not_reproduced")
+
+
 # ------------------------------------------------------------------------------------------------
 
 def run(tier, seed):
@@ -550,10 +573,15 @@ def run(tier, seed):
         for a in common.pmap(bytes_shard, [(seed * 15485863 + i, 6000, 0.05, True) for i in range(16)]):
             total.merge(a)
         total.count("asan_leg_inputs", 16 * 6000)
+        # leg 6: coverage-guided inputs (libFuzzer + ASan) through load/evaluate/manifest and the rendered diagnostics
+        import fuzzleg
+        fuzzleg.run_leg(total, PROP, "fz_pipeline", int(os.environ.get("VERIF_FUZZ_SECONDS") or 900), seed, 2048, fuzz_judge)
     rule = ("byte-level inputs (random bytes, token soup, mutated ui-tests corpus) loaded/evaluated/manifested in "
             "evalsrv under catch_unwind (1/3 of failing inputs again through Session to see the rendered "
             "diagnostic); every std function x argument tuples from a boundary pool; a sample through the release "
-            "CLI with random flags/ext vars/TLAs; nesting towers of every recursive construct through the CLI. "
+            "CLI with random flags/ext vars/TLAs; nesting towers of every recursive construct through the CLI; thorough tier: the "
+            "byte-level workload again on an ASan/LSan build, and a coverage-guided libFuzzer campaign (ASan, debug assertions, "
+            "overflow checks) through load/evaluate/manifest and the Session diagnostics, every kept artifact re-run alone. "
             "distinct_nontrivial = distinct inputs that got past the lexer (bytes leg) + distinct builtin calls + "
             "distinct CLI cases.")
     return common.finish(PROP, tier, seed, total, rule, t0,
